@@ -191,6 +191,15 @@ fn enumerate_from(shape: &[usize], gates: &mut Vec<Gate>, max_gates: usize, out_
     }
 }
 
+const ZERO_WIDTH_PROGRAMS: &[(&str, &str)] = &[
+    ("unit between", "pub fn main(a: bool, n: (), b: bool) -> bool {\n  a ^ b\n}\n"),
+    ("empty array between", "pub fn main(a: u8, n: [u8; 0], b: bool) -> u8 {\n  if b { a } else { a + 1 }\n}\n"),
+    ("two leading empties", "pub fn main(x: (), z: [bool; 0], b: u8) -> u8 {\n  b * 3\n}\n"),
+    ("leading unit", "pub fn main(x: (), b: u8) -> u8 {\n  b / 3\n}\n"),
+    ("trailing unit", "pub fn main(b: u8, x: ()) -> u8 {\n  b % 3\n}\n"),
+    ("empty struct between twice", "struct Z {}\npub fn main(a: u8, z: Z, b: bool, y: Z, c: bool) -> u8 {\n  if c ^ b { a + 1 } else { a - 1 }\n}\n"),
+];
+
 pub struct EnumPlan {
     pub shape: Vec<usize>,
     pub max_gates: usize,
@@ -209,6 +218,12 @@ pub fn run(tier: Tier) -> i32 {
             EnumPlan { shape: vec![1, 2], max_gates: 2, out_pairs: true },
             EnumPlan { shape: vec![3], max_gates: 2, out_pairs: true },
             EnumPlan { shape: vec![2], max_gates: 4, out_pairs: false },
+            // zero-width parties (a `()` / `[T; 0]` parameter) before, between and after others
+            EnumPlan { shape: vec![1, 0, 1], max_gates: 2, out_pairs: true },
+            EnumPlan { shape: vec![0, 0, 2], max_gates: 2, out_pairs: true },
+            EnumPlan { shape: vec![0, 1], max_gates: 2, out_pairs: true },
+            EnumPlan { shape: vec![1, 0], max_gates: 2, out_pairs: true },
+            EnumPlan { shape: vec![1, 0, 0, 1, 0], max_gates: 1, out_pairs: true },
         ],
         Tier::Thorough => vec![
             EnumPlan { shape: vec![1], max_gates: 5, out_pairs: true },
@@ -218,6 +233,13 @@ pub fn run(tier: Tier) -> i32 {
             EnumPlan { shape: vec![3], max_gates: 3, out_pairs: true },
             EnumPlan { shape: vec![2], max_gates: 5, out_pairs: false },
             EnumPlan { shape: vec![2, 2], max_gates: 3, out_pairs: true },
+            EnumPlan { shape: vec![1, 0, 1], max_gates: 4, out_pairs: true },
+            EnumPlan { shape: vec![0, 0, 2], max_gates: 3, out_pairs: true },
+            EnumPlan { shape: vec![0, 1], max_gates: 3, out_pairs: true },
+            EnumPlan { shape: vec![1, 0], max_gates: 3, out_pairs: true },
+            EnumPlan { shape: vec![0, 1, 0, 1, 0], max_gates: 3, out_pairs: true },
+            EnumPlan { shape: vec![1, 0, 0, 1, 1], max_gates: 2, out_pairs: true },
+            EnumPlan { shape: vec![2, 0, 1], max_gates: 3, out_pairs: true },
         ],
     };
     let sh = Shared { coll: &coll, circuits: AtomicU64::new(0), transitions: AtomicU64::new(0), evals: AtomicU64::new(0), sigs: Mutex::new(BTreeMap::new()), max_saved: AtomicU64::new(0) };
@@ -255,6 +277,26 @@ pub fn run(tier: Tier) -> i32 {
         complete &= ok;
         per.push(json!({"party_shape": p.shape, "max_gates": p.max_gates, "all_output_pairs": p.out_pairs, "circuits": sh.circuits.load(Ordering::Relaxed) - before, "completed": ok}));
     }
+    // compiled programs with zero-width parameters: conversion checked on all inputs
+    let mut zw_programs = 0u64;
+    for (name, src) in ZERO_WIDTH_PROGRAMS {
+        for dedup in [true, false] {
+            let cfg = crate::subject::Config { register: false, dedup };
+            match crate::subject::compile(src, cfg, Default::default()) {
+                crate::subject::CompileOutcome::Ok(p) => {
+                    if let Some(c) = crate::subject::ssa_of(&p) {
+                        let inputs = all_inputs(&c.input_gates);
+                        let mut sig = (0usize, 0usize);
+                        zw_programs += 1;
+                        if let Some((kind, detail)) = check_conversion(c, &inputs, &mut sig) {
+                            coll.push(Violation::new("C10", format!("zero-width-param/{name}"), kind, format!("{:?}", c.input_gates), json!({"kind": "program", "source": src}), detail));
+                        }
+                    }
+                }
+                other => coll.push(Violation::new("C10", format!("zero-width-param/{name}"), "setup-program-not-compiled", "", json!({"kind": "program", "source": src}), format!("{other:?}"))),
+            }
+        }
+    }
     // compiler-shaped circuits: program families, reporting only C10 side checks
     let (jobs, plan) = c01::family_jobs(tier, &["E-small", "S", "P"]);
     let fr = c01::run_jobs(jobs, c01::attribution_for, &budget, plan);
@@ -281,10 +323,11 @@ pub fn run(tier: Tier) -> i32 {
             "max_registers_saved": sh.max_saved.load(Ordering::Relaxed),
             "exhaustive": complete && fr.complete,
             "compiled_programs_cross_checked": fr.counters.get("programs"),
+            "zero_width_parameter_programs_converted_all_inputs": zw_programs,
             "compiled_program_evaluations": fr.counters.get("evaluations"),
             "wall_cap_hit": budget.hit(),
         }),
-        assumptions: vec!["gate-count bound; party shapes {[1],[2],[1,1],[1,2],[3],[2,2]}".into()],
+        assumptions: vec!["gate-count bound; party shapes {[1],[2],[1,1],[1,2],[3],[2,2]} plus shapes with zero-width parties ([1,0,1],[0,0,2],[0,1],[1,0],[0,1,0,1,0],[1,0,0,1,1],[2,0,1])".into()],
         start,
     };
     finish(report, &coll)
